@@ -1611,6 +1611,27 @@ fn gen_szx(r: &mut Rng) -> Case {
         b.segs = vec![Seg::H(b"ZXST\x01\x04\x01\x00"[..k].to_vec())];
         b.off = k;
     }
+    // the frame clock set several times in one file, with emulated time passing in between (the OUT to 0xFE
+    // of an SPCR chunk): well-formed Z80R/SPCR pairs whose clocks jump around inside the picture lines,
+    // often backwards within one scanline
+    if r.chance(1, 5) {
+        let line = r.below(192) as u32;
+        let mut col = 20 + r.below(100) as u32;
+        for _ in 0..r.range(2, 4) {
+            let mut z = r.bytes(37);
+            z[28] = r.below(3) as u8;
+            let t = match r.below(4) {
+                0 => r.below(69888) as u32,
+                _ => 14336 + line * 224 + col,
+            };
+            z[29..33].copy_from_slice(&t.to_le_bytes());
+            b.chunk(b"Z80R", 37, vec![Seg::H(z)]);
+            let mut sp = r.bytes(8);
+            sp[0] = r.below(8) as u8;
+            b.chunk(b"SPCR", 8, vec![Seg::H(sp)]);
+            col = if r.chance(2, 3) { r.below(col.max(1) as u64) as u32 } else { col + r.below(20) as u32 };
+        }
+    }
     let n = r.below(7);
     for _ in 0..n {
         gen_szx_chunk(r, &mut b);
